@@ -174,6 +174,12 @@ const GENERIC_SNIPPETS: &[[&str; 3]] = &[
         "gm: Maybe : Maybe.None\n\ngl :: [(Maybe.Just \"a\"), Maybe.None]\n\ngf :: fn m: Maybe(int) ->\n    case m do\n        Just v ->\n            v\n        end\n        None ->\n            0\n        end\n    end\nend\n\nguse4 :: fn do\n    print(gf(gm))\n    print(gl)\nend\n",
         "gm :: Maybe.None\n\ngl :: [(Maybe.Just \"a\"), Maybe.None]\n\ngf :: fn m ->\n    case m do\n        Just v ->\n            v\n        end\n        None ->\n            0\n        end\n    end\nend\n\nguse4 :: fn do\n    print(gf(gm))\n    print(gl)\nend\n",
     ],
+    // element-wise tuple operators with the operand annotations written / partly written / erased
+    [
+        "gvdiv :: fn v: (float, float), d: (float, float) -> (float, float) do\n    v / d\nend\n\ngvhalf :: fn v: (float, float), k: float -> (float, float) do\n    v / k\nend\n\ngvmix :: fn v: (float, float), d: (float, float) -> (float, float) do\n    (1.0, 2.0) / d + v * d - d\nend\n\ngvlt :: fn v: (float, str), d: (float, str) -> bool do\n    v < d\nend\n\ngvcat :: fn v: (int, str), d: (int, str) -> (int, str) do\n    v + d\nend\n\nguse5 :: fn -> void do\n    print(gvdiv((1.0, 2.0), (2.0, 4.0)))\n    print(gvhalf((1.0, 2.0), 2.0))\n    print(gvmix((1.0, 2.0), (2.0, 4.0)))\n    print(gvlt((1.0, \"a\"), (1.0, \"b\")))\n    print(gvcat((1, \"a\"), (2, \"b\")))\nend\n",
+        "gvdiv :: fn v: (float, float), d -> (float, float) do\n    v / d\nend\n\ngvhalf :: fn v, k: float ->\n    v / k\nend\n\ngvmix :: fn v, d: (float, float) ->\n    (1.0, 2.0) / d + v * d - d\nend\n\ngvlt :: fn v: (float, str), d -> bool do\n    v < d\nend\n\ngvcat :: fn v, d: (int, str) ->\n    v + d\nend\n\nguse5 :: fn do\n    print(gvdiv((1.0, 2.0), (2.0, 4.0)))\n    print(gvhalf((1.0, 2.0), 2.0))\n    print(gvmix((1.0, 2.0), (2.0, 4.0)))\n    print(gvlt((1.0, \"a\"), (1.0, \"b\")))\n    print(gvcat((1, \"a\"), (2, \"b\")))\nend\n",
+        "gvdiv :: fn v, d ->\n    v / d\nend\n\ngvhalf :: fn v, k ->\n    v / k\nend\n\ngvmix :: fn v, d ->\n    (1.0, 2.0) / d + v * d - d\nend\n\ngvlt :: fn v, d ->\n    v < d\nend\n\ngvcat :: fn v, d ->\n    v + d\nend\n\nguse5 :: fn do\n    print(gvdiv((1.0, 2.0), (2.0, 4.0)))\n    print(gvhalf((1.0, 2.0), 2.0))\n    print(gvmix((1.0, 2.0), (2.0, 4.0)))\n    print(gvlt((1.0, \"a\"), (1.0, \"b\")))\n    print(gvcat((1, \"a\"), (2, \"b\")))\nend\n",
+    ],
 ];
 
 // ------------------------------------------------------------------ C08
